@@ -1,6 +1,7 @@
 import Driver.Bytes
 import MlsVerif.Model.HpkeBytes
 import MlsVerif.Model.X509
+import MlsVerif.Model.X25519
 /-! Line protocol for C14: the HPKE key schedule / exporter / nonce / DHKEM derivations of
 `Model/Hpke.lean` on bytes (reference HKDF), plain KDF / hash / MAC of a suite, and the X.509
 reference verdict of `Model/X509.lean`.
@@ -10,6 +11,7 @@ reference verdict of `Model/X509.lean`.
     hpke.export <suite> <exporter_secret> <exporter_context> <len>    -> <bytes> | err       (err: len > 255·Nh)
     dhkem.ss <suite> <dh> <enc> <pkR>                                 -> <shared_secret>
     dhkem.dkp <suite> <ikm>                                           -> <dkp_prk> <sk | candidate0>
+    extpub <suite> <external_secret>                                  -> <public key>        (X25519 suites; `unsupported` otherwise)
     kdf.extract <suite> <salt> <ikm>                                  -> <prk>
     kdf.expand <suite> <prk> <info> <len>                             -> <okm> | err
     hash <suite> <data>        mac <suite> <key> <data>
@@ -125,6 +127,18 @@ def handle (ws : List String) : String :=
           | .raw => some prk
         match sk with
         | some sk => s!"{hx prk} {hx sk}"
+        | none => "err"
+    | _, _ => bad
+  | ["extpub", s, ikm] =>
+    -- the external public key of an epoch: DeriveKeyPair(external_secret).pk (RFC 9420 §8); X25519 suites only
+    match suiteOf s, unhx ikm with
+    | some p, some ikm =>
+      if p.kemId != 0x0020 then "unsupported" else
+      match (hpke p).dkpPrk ikm with
+      | none => "err"
+      | some prk =>
+        match (dhKem p).skWithoutSampling prk with
+        | some sk => hx (X25519.publicKey sk)
         | none => "err"
     | _, _ => bad
   | ["kdf.extract", s, salt, ikm] =>
